@@ -12,7 +12,7 @@ code -> spec  observations (index lookup / masked / spatial filter / per-cell co
 import random
 from fractions import Fraction
 
-from vh.core import MachineryError, guarded, Raised
+from vh.core import MachineryError, guarded, Raised, other_surroundings
 from vh import alpha
 
 S = alpha.S
@@ -194,7 +194,11 @@ def run(chk, replay=None):
         d = replay['detail']
         xe, ye = d['xe'], d['ye']
         case = d['case']
-        region = build_region(case, xe, ye, d['dh'], d['how'])
+        if 'other surroundings' in d['how']:
+            with other_surroundings():
+                region = build_region(case, xe, ye, d['dh'], d['how'].split(' ')[0])
+        else:
+            region = build_region(case, xe, ye, d['dh'], d['how'])
         tr, pts = region_trace(chk, 'replay', region, d['cmap'], case['nx'], case['ny'], xe, ye, d['dh'], numpy, True, rng,
                                closing=tuple(d.get('closing', (None, None))))
         acc, rej = chk.validate_traces('TraceCartRegion', 'Trace_CartRegion.cfg', [tr] if tr else [])
@@ -227,7 +231,14 @@ def run(chk, replay=None):
             xe, ye = lattice_edges(x0, dh, nx), lattice_edges(y0, dh, ny)
             dhf = float(Fraction(dh))
             how = 'from_origins' if (ci + rep) % 2 == 0 else 'polygons'
-            region = guarded(build_region, case, xe, ye, dhf, how)
+            if (ci + rep) % 3 == 1:
+                # the embedding program changed process-wide settings (a coarse decimal context, numpy print options) before
+                # it built the region: the region is the same
+                with other_surroundings():
+                    region = guarded(build_region, case, xe, ye, dhf, how)
+                how += ' (other surroundings)'
+            else:
+                region = guarded(build_region, case, xe, ye, dhf, how)
             m = {'case': case, 'xe': xe, 'ye': ye, 'dh': dhf, 'how': how, 'cmap': case['cmap'],
                  'closing': [lattice_edges(x0, dh, nx + 1)[-1], lattice_edges(y0, dh, ny + 1)[-1]]}
             shape = 'single-row-or-column' if min(nx, ny) == 1 else 'general'
